@@ -51,6 +51,7 @@ structure Throw where
   id       : Nat
   inBlock  : Bool     -- the level was still entered (not exited) when the throw was performed
   active   : Bool     -- its `is_active` at that moment
+  timed    : Bool     -- the level had a deadline (`timeout is not None`)
 deriving DecidableEq, Repr
 
 structure State where
@@ -136,7 +137,7 @@ def step (s : State) : Event → Option State
           | .thrown =>
             some { (setLevel s id fun l => { l with ist := .at (i + 1) }) with
                    pending := some (id, true),
-                   throws := { id := id, inBlock := inBlock, active := l.active } :: s.throws }
+                   throws := { id := id, inBlock := inBlock, active := l.active, timed := l.timed } :: s.throws }
           | .refused =>
             some (setLevel s id fun l =>
               if i = 2 then { l with ist := .done, failed := true } else { l with ist := .at (i + 1) })
